@@ -17,12 +17,16 @@ ASSUMPTIONS = [
     "natively (real isinstance, no engine) and must give the same verdict",
     "hook freedom covers values reaching type collection and function lookup; hashing/equality of CLASS objects by typing.Union (metaclass "
     "__hash__/__eq__), the logger/store path, and C-level slots that no Python-level hook can observe are outside the claim",
-    "NOT claimed (outside this technique here): 'same results with and without tracing' (a whole-program differential over two interpreter runs)",
+    "NOT claimed (outside this technique here): 'same results with and without tracing' as a whole-program differential over two interpreter runs; "
+    "claimed instead are the channels through which the tracer could change a program: user-defined hooks (hookfree), escaping exceptions (contain), "
+    "the profiler slot and flush on every exit (context), and the process-wide random generator (rng)",
     "fault sites are symbolic booleans: get_type on an argument, get_type on the return/yield value, function lookup, logger.log, plus "
     "argument / return objects whose own inspection raises (a __class__ property that raises); exception classes Exception, ValueError, "
     "RecursionError, AttributeError, KeyError, TypeError; all single, double and higher combinations; BaseException-only faults and a raising "
     "code filter are not in the property's list and are not injected",
     "monkeytype.tracing.sys is replaced by a FakeSys object (the engine's own tracer must not be displaced by a real sys.setprofile); "
+    "rng: the tracer must not draw from the process-wide generator of the `random` module (the traced program's own random numbers come from it); "
+    "listed finding C03-sampling-draws-from-global-rng covers a configured sample rate >= 1, so only 'no rate' (None, 0) is asserted while it is listed",
     "monkeytype.trace(config) is checked to thread logger, filter, sample rate and max_typed_dict_size (symbolic ints) to the tracer",
 ]
 
@@ -42,4 +46,8 @@ def run(tier):
                         events="call/return, call/yield/call/return, call (lookup only)"),
             rule="one path = one tripwire kind x position x class of k; the journal of user-defined hooks that ran must be empty",
             describe=H.describe, max_samples=10**6, validate_limit=10**6))
+    jobs.append(
+        Job("harness.c03", "rng", [{}], 60, bounds=dict(sample_rate=list(H.RNG_RATES), calls="1..3 complete calls"),
+            rule="one path = (sample rate, number of calls); monkeytype.tracing's `random` module (and any function of it imported by name) is a spy: "
+                 "module-level functions draw from the process-wide generator and are recorded, a generator of the tracer's own is allowed", describe=H.describe))
     return run_check(PID, tier, jobs, H.FUNCTIONS, ASSUMPTIONS, level_if_exhausted="fault_enumeration", pre=H.validate_models)
